@@ -4,6 +4,7 @@
 package c07
 
 import (
+	"bytes"
 	"fmt"
 	"math"
 	"math/big"
@@ -303,9 +304,11 @@ func one(k *run.K, t model.Tree, o opts) {
 	// decode own output
 	var back geom.Geometry
 	var derr error
+	snapIn := append([]byte(nil), b...)
 	if k.Lib("nopanic", func() { back, derr = geom.UnmarshalTWKB(b, geom.NoValidate{}) }) {
 		return
 	}
+	k.Check("decode-own-output", bytes.Equal(snapIn, b), "UnmarshalTWKB modified its input buffer")
 	cls := ""
 	if (o.size || o.bbox) && hasEmptyMember(t) {
 		cls = "size-or-bbox-with-empty-member"
